@@ -148,6 +148,8 @@ JudgeC19(t, k) ==
              [first_diff |-> LET d == {i \in DOMAIN o.cpp.model.amps : i > Len(o.py.model.amps) \/ o.cpp.model.amps[i] # o.py.model.amps[i]}
                              IN IF d = {} THEN 0 ELSE CHOOSE i \in d : \A j \in d : i <= j,
               ncpp |-> Len(o.cpp.model.amps), npy |-> Len(o.py.model.amps)]),
+        ChkD(t, "C19:same-parameter-arrays-with-the-same-members-in-the-same-order",
+             BagOfSeq(o.cpp.model.arrays) = BagOfSeq(o.py.model.arrays), [cpp |-> o.cpp.model.arrays, py |-> o.py.model.arrays]),
         \* the spline binning of every GSpline lineshape is one the input file states ([resonance, min, max, n] vs [min, max, n])
         ChkD(t, "C19:spline-binning-is-that-of-the-input-file",
              \A L \in {o.cpp.model.amps, o.py.model.amps} : \A i \in DOMAIN L : \A j \in DOMAIN L[i].splines :
